@@ -219,8 +219,8 @@ def mocks_queue(chk, unlimited):
                             lines.append("(decl %d %d %d 9 %s (%s))" % (kind, unlimited, f, cs, q)); meta.append((t, f))
     diffs = _run_pairs(chk, lines, "mocks")
     for i, name, code, model in diffs[:3]:
-        chk.disagreement("translated %s of src/mocks.c differs from Mocks.v on the queue %s, function f%d: code %s, model %s" % (
-            name, meta[i][0], meta[i][1], code[:160], model[:160]),
+        chk.disagreement("translated %s of src/mocks.c differs from Mocks.v on the case %s: code %s, model %s" % (
+            name, lines[i][:300], code[:160], model[:160]),
             {"case": lines[i], "function": name, "code": code, "model": model, "how": "printf '%s\\n' | ocaml/driver code" % lines[i]})
     return [(meta[i], name) for i, name, _, _ in diffs]
 
